@@ -885,9 +885,12 @@ func (s *Store) DeleteShard(shardID uint64) error {
 	} else if err = os.RemoveAll(sh.walPath); err != nil {
 		return err
 	} else {
-		// Remove index type from the database on success
+		// Remove index type from the database on success, unless the database
+		// was dropped while the shard's files were being removed.
 		s.mu.Lock()
-		s.databases[db].removeIndexType(sh.IndexType())
+		if state := s.databases[db]; state != nil {
+			state.removeIndexType(sh.IndexType())
+		}
 		s.mu.Unlock()
 		return nil
 	}
@@ -1016,7 +1019,10 @@ func (s *Store) DeleteRetentionPolicy(database, name string) error {
 	state := s.databases[database]
 	for _, sh := range shards {
 		delete(s.shards, sh.id)
-		state.removeIndexType(sh.IndexType())
+		// The database may have been dropped since the shards were collected.
+		if state != nil {
+			state.removeIndexType(sh.IndexType())
+		}
 	}
 	s.mu.Unlock()
 	return nil
